@@ -572,7 +572,29 @@ pub fn lrand(g: &mut Gen, r: &mut Rng, cases: usize, maxlen: usize) {
         let (na, nesta) = (r.below(maxlen as u64 + 1) as usize, r.chance(1, 2));
         let la = mk(&mut r, na, nesta);
         let (nb, nestb) = (r.below(maxlen as u64 + 1) as usize, r.chance(1, 2));
-        let lb = mk(&mut r, nb, nestb);
+        let mut lb = mk(&mut r, nb, nestb);
+        if r.chance(1, 3) && !la.is_empty() {
+            // peer derived from local: same ranges, a few digests changed, some entries moved,
+            // so that many pages are digest-consistent but arrive out of key order
+            lb = la.clone();
+            let edits = 1 + r.below(3);
+            for _ in 0..edits {
+                let i = r.below(lb.len() as u64) as usize;
+                lb[i].2[0] ^= 0x40;
+            }
+            for _ in 0..r.below(3) {
+                let i = r.below(lb.len() as u64) as usize;
+                let j = r.below(lb.len() as u64) as usize;
+                lb.swap(i, j);
+            }
+            if r.chance(1, 2) {
+                // an enclosing root with a fresh digest in front
+                let lo = lb.iter().map(|x| x.0.clone()).min().unwrap();
+                let hi = lb.iter().map(|x| x.1.clone()).max().unwrap();
+                lb.insert(0, (lo, hi, vec![0x77]));
+            }
+            g.note("derived-peer");
+        }
         g.op(format!("list 0 {}", show_items(&la)));
         g.op(format!("list 1 {}", show_items(&lb)));
         let out = g.op("ldiff 0 1".into());
